@@ -22,7 +22,7 @@ import ir, flow, variants
 from common import where, fwhere
 import scanner_ids as S
 from scanner_ids import scanner
-from c05 import esig, array_elem, action_switch, eob_constant, stores_of, loads_of
+from c05 import esig, array_elem, action_switch, eob_constant, eof_action_stores, stores_of, loads_of, copies_of
 
 # ---------------------------------------------------------------- shared scanner facts
 
@@ -55,22 +55,18 @@ def refill_switches(sc, fn):
     return out
 
 def wrap_edges(sc, fn, w):
-    """(branch, nonzero target, zero target) for the test of yywrap call w"""
-    for u in fn.uses().get(w.res, []):
-        x = u
-        for _ in range(4):
-            if x.op == 'icmp':
-                for b in fn.uses().get(x.res, []):
-                    if b.op == 'br':
-                        for t in b.targets:
-                            con = S.edge_constraint(fn, b, t)
-                            if con and con[0] == 'ne' and con[2] == ('int', 0):
-                                return (b, t, [z for z in b.targets if z != t][0])
-                            if con and con[0] == 'eq' and con[2] == ('int', 0):
-                                return (b, [z for z in b.targets if z != t][0], t)
-            nxt = fn.uses().get(x.res, []) if x.res else []
-            if len(nxt) == 1 and nxt[0].op in ('zext', 'trunc', 'icmp'): x = nxt[0]
-            else: break
+    """(branch, nonzero target, zero target) for the test of the result of yywrap call w (directly or kept in a local)"""
+    vals = copies_of(fn, w.res)
+    for b in fn.blocks:
+        br = b.ins[-1]
+        if br.op != 'br' or not br.ops: continue
+        for t in br.targets:
+            con = S.edge_constraint(fn, br, t)
+            if con is None or con[2] != ('int', 0) or con[0] not in ('ne', 'eq'): continue
+            a = S.strip_ext(fn, con[1])
+            if a[0] == 'reg' and a[1] in vals:
+                other = [z for z in br.targets if z != t][0]
+                return (br, t, other) if con[0] == 'ne' else (br, other, t)
     return None
 
 # ---------------------------------------------------------------- R1
@@ -93,23 +89,28 @@ def r1(ctx, sc):
         n += 1
         key = sc.key('C10.R1', canon, 'yywrap')
         if canon == 'yylex':
-            EOB, E = eob_constant(sc, f)
-            if E is None: rep.broken('C10.R1: EOF action assignment not found in yylex of %s' % v.name)
+            Es = [x for _, x in eof_action_stores(sc, f)]
+            if not Es: rep.broken('C10.R1: EOF action assignment not found in yylex of %s' % v.name)
+            E = Es[0]
         if not ws:
             if constant_yywrap(sc):
                 rep.vacuous.append('C10.R1 %s %s: %%option noyywrap expands yywrap() to the constant 1, no call to consult' % (v.name, canon))
                 # still: the EOF action is assigned only in the end-of-file arm
-                if canon == 'yylex' and not sc.prog.cfg(f, cut=False).dominates(armb, E.blk):
+                if canon == 'yylex' and not all(sc.prog.cfg(f, cut=False).dominates(armb, e.blk) for e in Es):
                     rep.fail('C10.R1', sc.key('C10.R1', canon, 'eof-action-outside-arm'), where(E), 'the EOF action number is assigned outside the end-of-file arm [variant %s]' % v.name, variant=v.describe())
                 else:
                     rep.ok('C10.R1', '%s %s: noyywrap (constant 1): EOF handling confined to the end-of-file arm' % (v.name, canon))
                 continue
             rep.fail('C10.R1', key, where(sw), '%s handles end of file without calling yywrap [variant %s]' % (canon, v.name), variant=v.describe()); continue
+        if canon == 'yylex':
+            outside = [e for e in Es if not sc.prog.cfg(f, cut=False).dominates(armb, e.blk)]
+            if outside:
+                rep.fail('C10.R1', sc.key('C10.R1', canon, 'eof-action-outside-arm'), where(outside[0]), 'an EOF action number is assigned outside the end-of-file arm of the refill switch [variant %s]' % v.name, variant=v.describe()); continue
         r_ = cfg.reach_from_block(armb, avoid=ws)
-        leak = [y for y in r_ if y.op == 'ret' or y is gnb or (canon == 'yylex' and y is E)]
+        leak = [y for y in r_ if y.op == 'ret' or y is gnb or (canon == 'yylex' and y in Es)]
         if leak:
             rep.fail('C10.R1', key, where(leak[0]), 'in %s the end-of-file arm can %s without consulting yywrap [variant %s]' % (
-                canon, 'assign the EOF action' if canon == 'yylex' and leak[0] is E else 'return' if leak[0].op == 'ret' else 'refill again', v.name),
+                canon, 'assign the EOF action' if canon == 'yylex' and leak[0] in Es else 'return' if leak[0].op == 'ret' else 'refill again', v.name),
                 witness=['%s:%s' % (i.blk.name, i.line) for i in (cfg.path(armb.ins[0], lambda y: y is leak[0], avoid=ws, include_start=True) or [])], variant=v.describe()); continue
         bad = None
         for w in ws:
@@ -118,8 +119,8 @@ def r1(ctx, sc):
             br, nz, z = we
             zr = cfg.reach_from_block(f.bmap[z], avoid=ws + [gnb])
             if canon == 'yylex':
-                if E in zr: bad = (br, 'the EOF action is assigned although yywrap returned 0 (more input was promised)'); break
-                if E not in cfg.reach_from_block(f.bmap[nz], avoid=ws + [gnb]): bad = (br, 'a non-zero yywrap does not lead to the EOF action'); break
+                if any(e in zr for e in Es): bad = (br, 'the EOF action is assigned although yywrap returned 0 (more input was promised)'); break
+                if not any(e in cfg.reach_from_block(f.bmap[nz], avoid=ws + [gnb]) for e in Es): bad = (br, 'a non-zero yywrap does not lead to the EOF action'); break
             else:
                 const_rets = [y for y in f.ins if y.op == 'store' and y.ops[1] == ('reg', 'retval') and y.ops[0][0] == 'int']
                 const_rets += [y for y in f.ins if y.op == 'ret' and y.ops and y.ops[0][0] == 'int']
@@ -284,7 +285,7 @@ def r5(ctx, sc):
                 if sc.calls(f, canon): continue          # forwarding overload
                 rep.broken('C10.R5: %s of %s neither stores the current-buffer slot nor calls yy_init_buffer' % (canon, v.name))
             n += 1
-            sets = [x for x in stores_of(sc, f, 'yy_did_buffer_switch_on_eof') if x.ops[0][0] == 'int' and x.ops[0][1] != 0]
+            sets = S.effect_sites(sc, f, lambda g, x, r: sc.is_var(r.loc(x.ops[1]), 'yy_did_buffer_switch_on_eof') and x.ops[0][0] == 'int' and x.ops[0][1] != 0, 'set-switch-flag')
             nulls = S.current_null_edges(sc, f)
             ef = lambda a, b: (a, b) not in nulls
             key = sc.key('C10.R5', canon, 'sets-flag')
@@ -305,7 +306,9 @@ def r5(ctx, sc):
     if f is None: return n
     ws = sc.calls(f, 'yywrap')
     if not ws:
-        if not constant_yywrap(sc): rep.broken('C10.R5: no yywrap call in yylex of %s' % v.name)
+        if not constant_yywrap(sc):
+            rep.fail('C10.R5', sc.key('C10.R5', 'yylex', 'clears-flag'), fwhere(f), 'yylex has no yywrap call to run the buffer-switch protocol around [variant %s]' % v.name, variant=v.describe())
+            return n
         rep.vacuous.append('C10.R5 %s yylex: noyywrap constant, no flag protocol' % v.name)
         return n
     cfg = sc.prog.cfg(f); res = ir.Resolver(f)
